@@ -63,7 +63,9 @@ func (cache *CacheLFU) GetCount(key string) (int, error) {
 
 func (cache *CacheLFU) Flush() {
 	clear(cache.keys)
+	// Zero the entries so they can be collected, then drop them from the heap.
 	clear(cache.entries)
+	cache.entries = cache.entries[:0]
 }
 
 func (cache *CacheLFU) Len() int {
